@@ -1218,7 +1218,7 @@ impl<T: TraceStorage> ChainProcess<T> {
                     }
 
                     let now = Instant::now();
-                    let (_point, mut draw_data, mut stats, info) = sampler.expanded_draw().unwrap();
+                    let (_point, mut draw_data, mut stats, info) = sampler.expanded_draw()?;
 
                     #[cfg(nuts_rs_verif)]
                     {
